@@ -79,6 +79,35 @@ def check_files(run, case, path, res):
         return False
     if not compare_counter(run, case, 'Grammar/raw_grammar.txt', oracles.read_rows(os.path.join(path, 'Grammar', 'raw_grammar.txt'), 'ascii'), t['raw']):
         return False
+    # ---- e-mail / website lists: the items are what the two detectors reported per password (recorded at their call in the parser)
+    sens = bool(res.info.get('save_sensitive'))
+    ew = [('Emails', 'email_providers.txt', 'providers', True), ('Emails', 'full_emails.txt', 'emails', sens),
+          ('Websites', 'website_hosts.txt', 'hosts', True), ('Websites', 'website_prefixes.txt', 'prefixes', True), ('Websites', 'website_urls.txt', 'urls', sens)]
+    for folder in ('Emails', 'Websites'):
+        listed = sorted(os.listdir(os.path.join(path, folder)))
+        expect = sorted(f for fo, f, k, on in ew if fo == folder and on)
+        if listed != expect:
+            run.violation(f'{folder}/ (save_sensitive={sens}): files on disk {listed}, expected {expect}', case); return False
+    for folder, fname, key, on in ew:
+        if on and not compare_counter(run, case, f'{folder}/{fname}', oracles.read_rows(os.path.join(path, folder, fname), enc), res.found[key]):
+            return False
+    for ev in res.found_events:
+        segs = ev[-1]
+        if ev[0] == 'E':
+            mine_e = [oracles.lower_keep_length(s_) for s_, l in segs if l == 'E']
+            if sorted(ev[2]) != sorted(mine_e) or sorted(ev[3]) != sorted(m.split('@', 1)[1] for m in mine_e):
+                run.violation(f'e-mail items counted for {ev[1]!r} ({ev[2]}, providers {ev[3]}) are not the lower-cased E segments / their part after the first @', case, observed=segs); return False
+        else:
+            mine_w = [s_ for s_, l in segs if l == 'W']
+            if sorted(ev[2]) != sorted(mine_w):
+                run.violation(f'website URLs counted for {ev[1]!r} ({ev[2]}) are not the W segments {mine_w}', case, observed=segs); return False
+            for u, hst in zip(sorted(ev[2]), sorted(ev[3], key=lambda x_: x_)) if len(ev[2]) == 1 else []:
+                if hst not in u:
+                    run.violation(f'website host {hst!r} counted for {ev[1]!r} is not part of the URL segment {u!r}', case); return False
+            for pre in ev[4]:
+                if pre is not None and (pre not in ('http://www.', 'http://', 'www.', 'https://', 'https://www.') or not any(u.startswith(pre) for u in ev[2])):
+                    run.violation(f'website prefix {pre!r} counted for {ev[1]!r} does not start any of its URL segments {ev[2]}', case); return False
+    run.ev('email_website_lists_compared', sum(1 for k in res.found.values() if k))
     # ---- base structures with the Markov pseudo-count
     N = res.passes[0]['num_passwords']
     c = case['coverage']
@@ -120,7 +149,7 @@ def check_determinism(run, case):
             nm = f'det_{os.getpid()}_{hs}'
             names.append(nm)
             out, err, rc, to = cli.run_cli('trainer.py', ['-r', nm, '-t', tf, '-e', case['encoding'], '-c', str(case['coverage']), '-n', str(case['ngram']),
-                                                           '-a', str(case['alphabet'])], stdin_mode='devnull', hashseed=hs)
+                                                           '-a', str(case['alphabet'])] + (['--save_sensitive'] if case.get('save_sensitive') else []), stdin_mode='devnull', hashseed=hs)
             run.ev('trainer_cli_runs')
             p = os.path.join(s, 'Rules', nm)
             if not os.path.exists(os.path.join(p, 'Grammar', 'grammar.txt')):
@@ -157,7 +186,7 @@ def check_retrain(run, case):
             run.ev('trainings_not_completed'); run.inconc('training did not complete'); return
         data = trainlists.render_plain([(p, k) for p, k in second['items']], second['encoding'])
         resB = trainer.train(data, pathA, encoding=second['encoding'], coverage=second['coverage'], ngram=second['ngram'],
-                             alphabet_size=second['alphabet'], max_len=second['max_len'])
+                             alphabet_size=second['alphabet'], max_len=second['max_len'], save_sensitive=bool(second.get('save_sensitive')))
         nameF, pathF, resF = trained.train_case(second, 'c06f')
         try:
             if not (resB.ok and resF.ok):
@@ -180,6 +209,7 @@ def gen_retrain_case(rng):
     first['alphabet'] = 100
     first['items'] += [['1qaz2wsx', 2], ['pass!!', 1], ['$$money$$', 1], ['bob@gmail.com', 1], ['www.site.net1', 1], ['qwer1234', 2], ['Mr.X2019', 1]]
     second = dict(first)
+    second['save_sensitive'] = rng.random() < 0.3        # may differ from the first training: the sensitive lists of the first one must not survive
     kind = rng.choice(['letters', 'digits', 'letters+digits', 'lower'])
     pool = {'letters': ['password', 'dragon', 'Monkey', 'LOVE', 'sunshine'], 'digits': ['123456', '0000', '42', '2580'],
             'letters+digits': ['password1', 'dragon12', 'abc123', 'love2'], 'lower': ['password', 'love', 'dragon', 'test']}[kind]
